@@ -101,3 +101,58 @@ CONTROLS = [
     # size exponent 6 through the BERT branch: 1024 * (1124 // 1024) is the same block size
     ("C05", "szx6-through-bert-arithmetic", FIX + [(MSG, "        if size_exp == 7:\n            start = number * 1024\n", "        if size_exp >= 6:\n            start = number * 1024\n")]),
 ]
+
+# ---- second extension (notes/C05.md): error responses in mid-transfer, ETag on some blocks / shrinking representation,
+# concurrent transfers, lossy networks, Block1 + Block2 combined, servers that answer above the requested size
+TM = "aiocoap/tokenmanager.py"
+MM = "aiocoap/messagemanager.py"
+MUTATIONS += [
+    # an error response (4.xx / 5.xx, also the 4.00 of a representation that shrank) to a Block2 continuation request:
+    # the blocks assembled so far are returned under the 2.xx of the first block -> a truncated body presented as success
+    ("C05", "error-to-block2-followup-returns-partial-body", FIX + [(PR,
+        "accepting single response.\"\n                )\n                return last_response\n",
+        "accepting single response.\"\n                )\n                return assembled_response\n")]),
+    # the diagnostic payload of an error response is dropped on the way to the caller
+    ("C05", "error-response-payload-dropped", FIX + [(PR,
+        "        if initial_response.opt.block2 is None:\n            return initial_response\n",
+        "        if initial_response.opt.block2 is None:\n            if not initial_response.code.is_successful():\n"
+        "                initial_response.payload = b\"\"\n            return initial_response\n")]),
+    # the token source hands out the same token again while it is in use: concurrent transfers (and late duplicates)
+    # get each other's responses or starve
+    ("C05", "token-handed-out-twice", FIX + [(TM, "        self._token = (self._token + 1) % (2**64)\n", "        self._token = (self._token + 0) % (2**64)\n")]),
+    # the Block1 cursor lives in the class instead of the running transfer: concurrent uploads move each other's cursor
+    ("C05", "block1-cursor-shared-between-transfers", FIX + [
+        (PR, "        block_cursor = 0\n\n        while True:\n", "        block_cursor = 0\n        cls._cursor = 0\n\n        while True:\n"),
+        (PR, "            blockresponse = await blockrequest.response\n\n            # store for future blocks",
+             "            blockresponse = await blockrequest.response\n            block_cursor = cls._cursor\n\n            # store for future blocks"),
+        (PR, "            while block1.size_exponent < size_exp:\n                block_cursor *= 2\n                size_exp -= 1\n",
+             "            while block1.size_exponent < size_exp:\n                block_cursor *= 2\n                size_exp -= 1\n            cls._cursor = block_cursor\n"),
+    ]),
+    # a lost datagram is never retransmitted: the transfer neither completes nor fails
+    ("C05", "lost-block-never-retransmitted", FIX + [(MM, "            self._retransmit(message, timeout, retransmission_counter)\n", "            pass\n")]),
+    # Block1 + Block2 combined: the continuation requests after an upload still carry the Block1 option of the last block
+    ("C05", "block2-followups-keep-block1-option", FIX + [(MSG, "            block2=blockopt,\n            block1=None,\n", "            block2=blockopt,\n")]),
+    # a server that names a larger Block1 size than the client used is followed upwards
+    ("C05", "block1-size-grows-with-the-server", FIX + [(PR,
+        "            while block1.size_exponent < size_exp:\n                block_cursor *= 2\n                size_exp -= 1\n",
+        "            while block1.size_exponent < size_exp:\n                block_cursor *= 2\n                size_exp -= 1\n"
+        "            while block1.size_exponent > size_exp and block_cursor % 2 == 0:\n                block_cursor //= 2\n                size_exp += 1\n")]),
+    # seeded/C05-seed4: contiguity of a Block2 block tested on block numbers (floor division) instead of byte offsets: a
+    # "restart bigger" answer (larger size exponent, NUM = floor(offset / larger size)) is appended -> duplicated bytes
+    ("C05", "seed4-block2-contiguity-by-block-number", FIX + [("@patch", "seeded/C05-seed4/patch.diff", 2)]),
+]
+
+CONTROLS += [
+    # admissible reactions where the statement leaves the choice:
+    # a server answering above the requested Block2 size is refused (error instead of following it)
+    ("C05", "server-size-growth-refused", FIX + [(MSG,
+        "        if block2.start != len(self.payload):\n            # Does not need",
+        "        if block2.size_exponent > self.opt.block2.size_exponent:\n            raise error.UnexpectedBlock2(\"Block size grew\")\n"
+        "        if block2.start != len(self.payload):\n            # Does not need")]),
+    # an error response to a Block2 continuation request ends the request with an exception instead of being returned
+    ("C05", "error-to-block2-followup-raised", FIX + [(PR,
+        "            if last_response.opt.block2 is None:\n                log.warning(\n",
+        "            if last_response.opt.block2 is None and not last_response.code.is_successful():\n"
+        "                raise error.UnexpectedBlock2(\"error response in mid-transfer\")\n"
+        "            if last_response.opt.block2 is None:\n                log.warning(\n")]),
+]
